@@ -1,3 +1,5 @@
+import NrDaemon.Props.Reviewed
+import NrDaemon.Gen.Skeleton
 import NrDaemon.Lemmas.Reservoir
 import NrDaemon.Lemmas.SlowSQL
 import NrDaemon.Spec.TopK
@@ -215,3 +217,6 @@ their keys with `<` — the order the transcription of `container/heap` (`GoHeap
 theorem C06_heap_orders_tied (p q : Int) :
     Gen.Decisions.errorLess p q = decide (p < q) ∧ Gen.Decisions.traceLess p q = decide (p < q) ∧
     Gen.Decisions.isLowerPriority p q = decide (p < q) := tied_less p q
+
+/-- **C06 (tie).**  `eventsAddEvent`: fill, heap initialisation at capacity, then replace the minimum only by a higher priority. -/
+theorem C06_add_event_source_tied : Gen.Skeleton.eventsAddEvent = Reviewed.eventsAddEvent := rfl
